@@ -17,7 +17,7 @@ from typing import Any, Dict, List, Optional
 
 from hypothesis import strategies as st
 
-from .. import drive_api, gen, model
+from .. import cli_common, drive_api, e2e, gen, model
 from ..engine_common import engine_case, history_classes
 from ..runner import Outcome
 
@@ -42,7 +42,81 @@ LABELS = ("ev_k", "ev_n", "lot_k", "lot_n")
 
 
 def budget(tier: str) -> Dict[str, Any]:
-    return {"shards": 16, "examples": 800 if tier == "quick" else 10000}
+    return {"shards": 16, "examples": 800 if tier == "quick" else 10000, "examples2": 6 if tier == "quick" else 120}
+
+
+E2E_HIST = gen.GenCfg(min_steps=5, max_steps=16, max_exchanges=2, max_holders=2, long_gaps=True)
+E2E_REL = Fraction(1, 10**12)
+
+
+def strategy2(tier: str) -> Any:
+    """End-to-end tier (rp2v/e2e.py): the console entry point run twice on the same files, with the window (-f / -t, with -m
+    or an [accounting_methods] section) and without it; the windowed report's detail rows must be the unfiltered report's
+    rows dated in the window, figure by figure, and its In / Out / Intra tables the rows dated in the window."""
+    return e2e.file_strategy(E2E_HIST, countries=("us", "us", "us", "generic", "ie"), to_dates=True, from_dates=True, force_window=True, schedule_weight=4)
+
+
+def minimize(case: Dict[str, Any], clause: str) -> Dict[str, Any]:
+    return e2e.minimize(case, clause, evaluate) if case.get("e2e") else case
+
+
+def evaluate_e2e(case: Dict[str, Any]) -> Outcome:
+    out = Outcome()
+    out.classes.add("e2e_cli")
+    out.classes.add(f"e2e_{case['country']}")
+    from_d, to_d = model.parse_date(case.get("from")), model.parse_date(case.get("to"))
+    if from_d is None and to_d is None:
+        out.skipped = "e2e_no_window_drawn"
+        return out
+    out.classes.add("e2e_window_" + ("from+to" if from_d and to_d else "from" if from_d else "to"))
+    if case.get("schedule"):
+        out.classes.add("e2e_accounting_methods_section")
+    folder = cli_common.work_dir("c10e")
+    try:
+        unfiltered_case = dict(case, **{"from": None, "to": None})
+        res_u, dumps_u, rows_model = e2e.run(unfiltered_case, folder + "/u")
+        res_f, dumps_f, _ = e2e.run(case, folder + "/f")
+        if dumps_u is None:
+            out.skipped = "e2e_run_failed(C16)"
+            return out
+        if dumps_f is None:
+            out.fail("window_changes_outcome", f"[end-to-end: rp2_{case['country']}] the unfiltered run succeeds, the run with from={case.get('from')} to={case.get('to')} exits with {res_f.rc}: {cli_common.crash_bucket(res_f.text)}")
+            return out
+        for asset in sorted(dumps_u):
+            du, df = dumps_u[asset], dumps_f[asset]
+            if not du["ok"] or not df["ok"]:
+                out.skipped = "e2e_report_not_relatable(C13)"
+                return out
+            txs = model.make_txs(rows_model[asset])
+            if not model.is_date_monotone(txs):
+                out.skipped = "non_monotone_dates(R3)"
+                return out
+            by_row = {t.row: t for t in txs}
+            where = f"[end-to-end: rp2_{case['country']}, asset {asset}, from={case.get('from')} to={case.get('to')}]"
+            for table in ("in", "out", "intra"):
+                expected_rows = sorted(t.row for t in txs if t.table == table and model.in_window(t.day, from_d, to_d))
+                if sorted(df["listed"][table]) != expected_rows:
+                    out.fail("window_transactions_mismatch", f"{where} {table} table lists rows {sorted(df['listed'][table])}, rows dated in the window are {expected_rows}")
+                    return out
+            expected = [f for f in du["fractions"] if model.in_window(by_row[f["ev"]].day, from_d, to_d)]
+            if len(expected) < len(du["fractions"]):
+                out.nontrivial = True
+            shown = df["fractions"]
+            if [(f["ev"], f["lot"]) for f in shown] != [(f["ev"], f["lot"]) for f in expected]:
+                out.fail("window_fractions_mismatch", f"{where} detail rows pair (event row, lot row) {[(f['ev'], f['lot']) for f in shown][:8]}; the unfiltered report's rows dated in the window are {[(f['ev'], f['lot']) for f in expected][:8]}")
+                return out
+            for a, b in zip(shown, expected):
+                for name in ("amount", "proceeds", "basis", "gain"):
+                    scale = max(abs(b["proceeds"] or 0), abs(b["basis"] or 0), abs(b[name] or 0), Fraction(1, 10**9))
+                    if a[name] is None or b[name] is None or abs(a[name] - b[name]) > E2E_REL * scale:
+                        out.fail("window_changes_figures", f"{where} fraction (event row {a['ev']}, lot row {a['lot']}): {name} = {a[name]} with the window, {b[name]} without it")
+                        return out
+                if a["long"] != b["long"]:
+                    out.fail("window_changes_figures", f"{where} fraction (event row {a['ev']}, lot row {a['lot']}): LONG/SHORT differs with and without the window")
+                    return out
+    finally:
+        cli_common.cleanup(folder)
+    return out
 
 
 @st.composite
@@ -107,6 +181,8 @@ def strategy(tier: str) -> Any:
 
 
 def known_signature(case: Dict[str, Any], clause: str, detail: str) -> Optional[str]:
+    if case.get("e2e"):
+        return None
     """F7: an entry whose own date <= to-date sorts, by instant, after an entry whose date > to-date."""
     if not case.get("to"):
         return None
@@ -122,6 +198,8 @@ def known_signature(case: Dict[str, Any], clause: str, detail: str) -> Optional[
 
 
 def evaluate(case: Dict[str, Any]) -> Outcome:
+    if case.get("e2e"):
+        return evaluate_e2e(case)
     out = Outcome()
     txs = model.make_txs(case["rows"])
     by_row = {t.row: t for t in txs}
